@@ -1,5 +1,7 @@
-(* CliOobWitness.v - concrete server streams on which the faithful mirror of the client performs an
-   out-of-bounds access (each replayed on the real library under ASan by props/C08.py, corpus/C08). *)
+(* CliOobWitness.v - concrete server streams on which the mirror of the client BEFORE the fix commits
+   dd06ff7..a7a3a60 (fix mask 0) performs an out-of-bounds access (each was replayed on the real library under
+   ASan; corpus/C08 keeps them as regression witnesses), and what the repaired control flow (baseline,
+   fix mask 127) does with the same streams: a clean failure. *)
 From LV Require Import Dec.CliBase Dec.CliFbProofs Dec.CliDec Dec.CliDecZ Dec.CliMsg Dec.CliInit Dec.RefEnc Dec.CliRtBase.
 Local Open Scope Z_scope.
 
@@ -14,43 +16,61 @@ Proof.
   - apply Forall_forall. intros r Hr. apply repeat_spec in Hr. subst. unfold zlen. rewrite repeat_length. lia.
 Qed.
 
+Definition old_state (f : pixfmt) (g w h : Z) : cst := set_fix (init_state f g w h) 0.
+Lemma old_state_wf f g w h : 0 <= w -> 0 <= h -> st_wf (old_state f g w h).
+Proof. intros. apply init_state_wf; assumption. Qed.
+
 Definition fbu1 (x y w h enc : Z) : list tok := toks (fbu_header 1 ++ rect_header x y w h enc).
 
 (* F20: HandleUltraZip walks rx records of 12 bytes through a 504-byte raw_buffer *)
 Definition w_ultrazip : list tok := fbu1 1000 1 0 0 cE_UltraZip ++ [TL [0; 0; 0; 0]].
-Lemma w_ultrazip_oob : handle_msg (init_state f888 255 16 16) w_ultrazip = Oob 40.
+Lemma w_ultrazip_oob : handle_msg (old_state f888 255 16 16) w_ultrazip = Oob 40.
 Proof. vm_compute. reflexivity. Qed.
+Lemma w_ultrazip_fixed : match handle_msg (init_state f888 255 16 16) w_ultrazip with Oob _ => False | _ => True end.
+Proof. vm_compute. exact I. Qed.
 
 (* Tight: 40 rows of decompressed data for a rectangle of 4 rows at the bottom of an 8x8 framebuffer *)
 Definition w_tight_rows : list tok := fbu1 0 4 8 4 cE_Tight ++ [TB 0; TZ 1 true true (repeat 171 (8 * 3 * 40))].
-Lemma w_tight_rows_oob : handle_msg (init_state f888 255 8 8) w_tight_rows = Oob 77.
+Lemma w_tight_rows_oob : handle_msg (old_state f888 255 8 8) w_tight_rows = Oob 77.
 Proof. vm_compute. reflexivity. Qed.
+Lemma w_tight_rows_fixed : match handle_msg (init_state f888 255 8 8) w_tight_rows with Oob _ => False | _ => True end.
+Proof. vm_compute. exact I. Qed.
 
 (* Tight gradient filter on a rectangle wider than 2048: thisRow[2048*3] on the stack *)
 Definition w_tight_wide : list tok := fbu1 0 0 2100 2 cE_Tight ++ [TB 64; TB 2; TZ 1 true true (repeat 1 (2100 * 3 * 2))].
-Lemma w_tight_wide_oob : handle_msg (init_state f888 255 2100 2) w_tight_wide = Oob 78.
+Lemma w_tight_wide_oob : handle_msg (old_state f888 255 2100 2) w_tight_wide = Oob 78.
 Proof. vm_compute. reflexivity. Qed.
+Lemma w_tight_wide_fixed : match handle_msg (init_state f888 255 2100 2) w_tight_wide with Oob _ => False | _ => True end.
+Proof. vm_compute. exact I. Qed.
 
 (* Tight "no zlib" mode: 12 bytes received, the filter nevertheless reads rh rows from client->buffer *)
 Definition w_tight_nozlib : list tok := fbu1 0 0 640 480 cE_Tight ++ toks ([160; 12] ++ repeat 0 12).
-Lemma w_tight_nozlib_oob : handle_msg (init_state f888 255 640 480) w_tight_nozlib = Oob 74.
+Lemma w_tight_nozlib_oob : handle_msg (old_state f888 255 640 480) w_tight_nozlib = Oob 74.
 Proof. vm_compute. reflexivity. Qed.
+Lemma w_tight_nozlib_fixed : match handle_msg (init_state f888 255 640 480) w_tight_nozlib with Oob _ => False | _ => True end.
+Proof. vm_compute. exact I. Qed.
 
 (* TRLE plain RLE: [buffer] is never reset between runs, the per-run bound does not protect raw_buffer *)
 Definition w_trle : list tok :=
   fbu1 0 0 16 16 cE_TRLE ++ toks ([128] ++ concat (repeat [17; 34; 51; 68; 0] 255) ++ [17; 34; 51; 68] ++ repeat 255 900 ++ [0]).
-Lemma w_trle_oob : handle_msg (init_state f101010 255 16 16) w_trle = Oob 50.
+Lemma w_trle_oob : handle_msg (old_state f101010 255 16 16) w_trle = Oob 50.
 Proof. vm_compute. reflexivity. Qed.
+Lemma w_trle_fixed : match handle_msg (init_state f101010 255 16 16) w_trle with Oob _ => False | _ => True end.
+Proof. vm_compute. exact I. Qed.
 
 (* ZRLE: a raw tile is not checked against the decompressed length (8/16/32-bit CPIXEL variants); the
    signed [remaining] goes negative and is passed on as a huge size_t *)
 Definition w_zrle_neg : list tok :=
   fbu1 0 0 65 1 cE_ZRLE ++ [TZ 0 true true [0]].
-Lemma w_zrle_neg_oob : handle_msg (init_state f101010 255 65 1) w_zrle_neg = Oob 35.
+Lemma w_zrle_neg_oob : handle_msg (old_state f101010 255 65 1) w_zrle_neg = Oob 35.
 Proof. vm_compute. reflexivity. Qed.
+Lemma w_zrle_neg_fixed : match handle_msg (init_state f101010 255 65 1) w_zrle_neg with Oob _ => False | _ => True end.
+Proof. vm_compute. exact I. Qed.
 
 (* ZRLE packed palette types 17..127 use 8-bit indices into palette[128] *)
 Definition w_zrle_pal : list tok :=
   fbu1 0 0 16 8 cE_ZRLE ++ [TZ 0 true true ([100] ++ concat (repeat [1; 2; 3; 4] 100) ++ repeat 200 128)].
-Lemma w_zrle_pal_oob : handle_msg (init_state f101010 255 16 16) w_zrle_pal = Oob 44.
+Lemma w_zrle_pal_oob : handle_msg (old_state f101010 255 16 16) w_zrle_pal = Oob 44.
 Proof. vm_compute. reflexivity. Qed.
+Lemma w_zrle_pal_fixed : match handle_msg (init_state f101010 255 16 16) w_zrle_pal with Oob _ => False | _ => True end.
+Proof. vm_compute. exact I. Qed.
